@@ -27,7 +27,7 @@ var profiles = map[string][]weighted{
 	"clients": {{"apply", 45}, {"tick", 5}, {"barrier", 8}, {"transfer", 6}, {"isolate", 5}, {"heal", 6}, {"remove", 2}, {"demote", 1}, {"crash", 4},
 		{"restart", 5}, {"cutleader", 3}, {"lossy", 2}, {"snapshot", 2}, {"inheritedtail", 4}},
 	"verify": {{"verify", 25}, {"cutleader", 10}, {"partition", 8}, {"isolate", 5}, {"heal", 10}, {"apply", 15}, {"lossy", 6}, {"addnonvoter", 2},
-		{"demote", 2}, {"tick", 8}, {"transfer", 2}, {"crash", 2}, {"restart", 3}, {"demotecut", 4}},
+		{"demote", 2}, {"tick", 8}, {"transfer", 2}, {"crash", 2}, {"restart", 3}, {"demotecut", 4}, {"lagcompact", 8}},
 	"converge": {{"apply", 30}, {"tick", 5}, {"stalesuffix", 10}, {"lagcompact", 10}, {"crash", 8}, {"restart", 8}, {"isolate", 8}, {"partition", 8},
 		{"heal", 6}, {"snapshot", 5}, {"addvoter", 3}, {"restartall", 2}, {"lossy", 4}, {"crashop", 4}, {"join", 4}, {"flakyreads", 5}},
 	"futures": {{"apply", 14}, {"barrier", 7}, {"verify", 7}, {"addvoter", 3}, {"addnonvoter", 2}, {"demote", 2}, {"remove", 3}, {"snapshot", 5},
@@ -69,12 +69,12 @@ func GenShape(t *rapid.T, p *Program) {
 	default:
 		p.N = oneOf(t, "n", 3, 3, 3, 3, 3, 5, 5, 5, 4, 2, 1)
 	}
-	flavourMode := oneOf(t, "flavourMode", 0, 0, 0, 0, 1, 1, 2, 2, 3)
+	flavourMode := oneOf(t, "flavourMode", 0, 0, 0, 0, 1, 1, 2, 2, 3, 4)
 	if prof == "restore" {
 		flavourMode = oneOf(t, "flavourModeR", 0, 0, 1, 1, 2)
 	}
 	if prof == "durability" {
-		flavourMode = oneOf(t, "flavourModeD", 0, 0, 1, 2, 3, 3)
+		flavourMode = oneOf(t, "flavourModeD", 0, 0, 1, 2, 3, 3, 4)
 	}
 	hbBase := oneOf(t, "hbBase", 50, 50, 100)
 	nvOdds := 6
@@ -85,7 +85,7 @@ func GenShape(t *rapid.T, p *Program) {
 		suf := 0
 		if i > 0 && p.N >= 3 && rapid.IntRange(0, nvOdds).Draw(t, "nonvoter") == 0 {
 			suf = 1
-		} else if i > 0 && p.N >= 3 && prof != "lease" && prof != "leaselong" && prof != "prevote" && rapid.IntRange(0, 7).Draw(t, "late") == 0 {
+		} else if i > 0 && p.N >= 3 && prof != "lease" && prof != "leaselong" && prof != "prevote" && prof != "leasejoin" && rapid.IntRange(0, 7).Draw(t, "late") == 0 {
 			suf = 2 // joins later with an empty disk
 		}
 		p.Suffrage = append(p.Suffrage, suf)
@@ -97,6 +97,8 @@ func GenShape(t *rapid.T, p *Program) {
 			fl = rapid.IntRange(0, 1).Draw(t, "flavour")
 		case 3:
 			fl = 2
+		case 4:
+			fl = 3 // commit tracking, staged index visible at once (InmemCommitTrackingStore)
 		}
 		p.Flavour = append(p.Flavour, fl)
 		p.Batching = append(p.Batching, rapid.Bool().Draw(t, "batching"))
@@ -109,13 +111,13 @@ func GenShape(t *rapid.T, p *Program) {
 		p.HBms = append(p.HBms, hbBase*f)
 	}
 	// keep at least two voters in multi-server verify/commit shapes
-	p.RCL = flavourMode == 3
+	p.RCL = flavourMode >= 3
 	p.LeaseDiv = oneOf(t, "leaseDiv", 1, 1, 2)
 	p.MaxAppend = oneOf(t, "maxAppend", 1, 2, 3, 8, 64)
 	p.Trailing = oneOf[uint64](t, "trailing", 0, 1, 2, 5, 20, 10240)
 	p.SnapThr = oneOf[uint64](t, "snapThr", 2, 5, 20, 8192)
 	p.SnapIntMs = oneOf(t, "snapInt", 20, 100, 1000)
-	if prof == "snapshot" || prof == "converge" {
+	if prof == "snapshot" || prof == "converge" || (prof == "verify" && rapid.Bool().Draw(t, "smallSnapshots")) {
 		p.Trailing = oneOf[uint64](t, "trailingS", 0, 1, 2, 5, 20)
 		p.SnapThr = oneOf[uint64](t, "snapThrS", 2, 5, 5, 20)
 		p.SnapIntMs = oneOf(t, "snapIntS", 20, 100)
@@ -125,7 +127,7 @@ func GenShape(t *rapid.T, p *Program) {
 	p.Pipeline = rapid.Bool().Draw(t, "pipeline")
 	p.RPCms = oneOf(t, "rpcTimeout", 100, 100, 30, 200)
 	switch prof {
-	case "lease", "leaselong", "prevote": // timing claims stated for an instantaneous network
+	case "lease", "leaselong", "prevote", "leasejoin": // timing claims stated for an instantaneous network (leasejoin sets its own latency)
 	default:
 		p.LatencyMs = oneOf(t, "latency", 0, 0, 0, 1, 2, 3)
 	}
@@ -183,6 +185,7 @@ func genAction(t *rapid.T, p *Program, ws []weighted) Action {
 	case "lagcompact":
 		a.N = oneOf(t, "writes", 3, 6, 12, 30)
 		a.Arg = rapid.IntRange(0, 1).Draw(t, "crashIt")
+		a.Set = []int{oneOf(t, "verifyAfterMs", 0, 0, 1, 2, 3, 4, 6)}
 	case "flakyreads":
 		a.Srv = tgt()
 		a.N = oneOf(t, "reads", 10, 20, 40, 80)
@@ -225,6 +228,9 @@ func GenProgram(t *rapid.T, profile string) *Program {
 		return p
 	case "prevote":
 		genPreVote(t, p)
+		return p
+	case "leasejoin":
+		genLeaseJoin(t, p)
 		return p
 	}
 	ws := profiles[profile]
@@ -285,6 +291,44 @@ func genLease(t *rapid.T, p *Program) {
 		p.Actions = append(p.Actions, Action{Op: "heal", Dt: 0})
 		p.Actions = append(p.Actions, Action{Op: "tick", Dt: oneOf(t, "recover", 300, 600, 1000)})
 	}
+}
+
+// genLeaseJoin: a fault-free run over a network with latency in which fresh
+// servers are added as voters at drawn instants (C13/R2: the lease check must
+// not depose a leader whose majority keeps responding - a voter that has just
+// been added has not had the time to respond yet).
+func genLeaseJoin(t *rapid.T, p *Program) {
+	voters := oneOf(t, "initialVoters", 1, 1, 1, 2, 3)
+	joiners := rapid.IntRange(1, 2).Draw(t, "joiners")
+	p.N = voters + joiners
+	hb := p.HBms[0]
+	p.Suffrage, p.Flavour, p.Batching, p.ConfStore, p.NoPreVote, p.HBms = nil, nil, nil, nil, nil, nil
+	for i := 0; i < p.N; i++ {
+		suf := 0
+		if i >= voters {
+			suf = 2
+		}
+		p.Suffrage = append(p.Suffrage, suf)
+		p.Flavour = append(p.Flavour, 0)
+		p.Batching = append(p.Batching, false)
+		p.ConfStore = append(p.ConfStore, false)
+		p.NoPreVote = append(p.NoPreVote, false)
+		p.HBms = append(p.HBms, hb)
+	}
+	p.RCL = false
+	p.LatencyMs = oneOf(t, "latencyJ", 1, 2, 3, 5)
+	p.SnapThr, p.Trailing = 8192, 10240
+	p.Actions = append(p.Actions, Action{Op: "tick", Dt: 1000})
+	lease := hb / p.LeaseDiv
+	for j := 0; j < joiners; j++ {
+		if rapid.Bool().Draw(t, "traffic") {
+			p.Actions = append(p.Actions, Action{Op: "apply", Srv: -1, N: oneOf(t, "burst", 1, 3), Dt: 5})
+		}
+		p.Actions = append(p.Actions, Action{Op: "join", N: 0, Dt: rapid.IntRange(0, 2*lease).Draw(t, "phase")})
+		p.Actions = append(p.Actions, Action{Op: "tick", Dt: oneOf(t, "settle", 200, 400)})
+	}
+	p.Actions = append(p.Actions, Action{Op: "tick", Dt: 500})
+	p.QuietMs = 500
 }
 
 // genLeaseLong: a long fault-free run (C13/R2).
